@@ -37,17 +37,28 @@ def main(argv):
         pool = doc_pool(rng, rng.randint(2, 4))
         ninst = 0
         ops, w = [], []
+        held = {}
         for _ in range(rng.randint(3, 12)):
             k = rng.random()
             if ninst == 0 or (k < 0.2 and ninst < 4):
                 d = rng.choice(pool + [None])
                 ops.append(['new', d])
                 w.append([0, [] if d is None else [G.json_sx(d)]])
+                held[ninst] = d
                 ninst += 1
             elif k < 0.45:
                 i, d = rng.randrange(ninst), rng.choice(pool)
                 ops.append(['load', i, d])
                 w.append([1, i, G.json_sx(d)])
+                held[i] = d
+            elif k < 0.52 and any(isinstance(v, dict) and isinstance(v.get('elements'), list) for v in held.values()):
+                # the caller trims the document ITS parser holds; in the model that parser now holds the trimmed document,
+                # every other parser (even one constructed from equal contents) is unaffected
+                i = rng.choice([j for j, v in held.items() if isinstance(v, dict) and isinstance(v.get('elements'), list)])
+                trimmed = dict(held[i], elements=list(held[i]['elements'][:1]))
+                ops.append(['edit', i, trimmed])
+                w.append([1, i, G.json_sx(trimmed)])
+                held[i] = trimmed
             else:
                 i = rng.randrange(ninst)
                 ops.append(['process', i])
@@ -65,7 +76,7 @@ def main(argv):
             if op[0] == 'new':
                 cur[n] = op[1]
                 n += 1
-            elif op[0] == 'load':
+            elif op[0] in ('load', 'edit'):
                 cur[op[1]] = op[2]
             else:
                 alone_idx.append((hi, oi))
@@ -113,7 +124,7 @@ def main(argv):
                         if op2[0] == 'new':
                             cur[n] = op2[1]
                             n += 1
-                        elif op2[0] == 'load':
+                        elif op2[0] in ('load', 'edit'):
                             cur[op2[1]] = op2[2]
                     doc = cur.get(op[1])
                     fresh = run_impl('json_worker', {'cases': [{'op': 'history', 'ops': [['new', doc], ['process', 0]]}]}, timeout=600)['results'][0]
